@@ -64,10 +64,10 @@ LeafOK(n, cfg, v, d) ==
 \* a member that reports the schema default of an unset leaf
 IsDefaultExtra(DS, T, cfg, p, mem) ==
     \E n \in SChildren(DS, SPath(p)) :
-        /\ n.kind = "leaf" /\ n.dflt # << >>
+        /\ n.kind \in {"leaf", "leaflist"} /\ n.dflt # << >>
         /\ ChildPath(p, n) \notin DOMAIN T.leaf
         /\ mem.k \in {Name(n), QName(n)}
-        /\ ScalarOK(n, cfg, n.dflt[1], mem.v)
+        /\ LeafOK(n, cfg, n.dflt, mem.v)
 
 RECURSIVE ObjCheck(_, _, _, _, _, _, _, _, _)
 RECURSIVE MemberCheck(_, _, _, _, _, _, _, _)
